@@ -130,7 +130,7 @@ def strat_h5(tier):
         "z": st.one_of(st.just(0.0), gen.rounded(-10, 10, 3)), "seed": st.integers(0, 2 ** 31 - 1),
         "lo": st.sampled_from([0.0, -5.0, 1e6, 1e-9]), "span": st.sampled_from([1.0, 1e-6, 1e6]),
         "dtype": st.sampled_from(["float64", "float64", "float32", "int"]), "name": _names,
-        "channels": st.sampled_from([None, None, ["red", "green"], ["green", "red", "blue"], ["blue", "red"]]),
+        "channels": st.sampled_from([None, None, ["red", "green"], ["green", "red", "blue"], ["blue", "red"], ["red"], ["green"]]),
         "meta": _meta(), "cycles": st.integers(1, 3), "ext": st.sampled_from([".h5", "", ".h5"]),
     })
 
@@ -184,7 +184,7 @@ def strat_tif(tier):
         # colour images: all three channels or any two of them in any order (the exporter pads the missing colour)
         "channels": st.sampled_from([None, None, ["red", "green", "blue"], ["red", "green"], ["green", "red"], ["red", "blue"], ["blue", "red"],
                                      ["green", "blue"], ["blue", "green"], ["blue", "green", "red"]]),
-        "meta": _meta(), "how": st.sampled_from(["hp.save", "save_image8", "save_image16", "save_image_float"]),
+        "meta": _meta(), "how": st.sampled_from(["hp.save", "save_image8", "save_image16", "save_image_float", "save_image8_unscaled", "save_image16_unscaled"]),
         # explicit (min, max) scaling interval for save_image, wider than the data by these fractions of its range
         "scaling": st.one_of(st.none(), st.none(), st.tuples(st.floats(0.0, 2.0), st.floats(0.0, 2.0)).map(list)),
     })
@@ -197,6 +197,8 @@ def run_tif(case):
         # documented: depths other than 8 bit may not be supported for every image type (PIL has no
         # 16-bit/float colour TIFF); colour export is exercised at 8 bit
         case = dict(case, how="save_image8")
+    if case["channels"] and case["how"] == "save_image16_unscaled":
+        case = dict(case, how="save_image8_unscaled")
     im = make_image(case)
     labels = [case["how"], "rgb" if case["channels"] else "grey"]
     fp = det_fingerprint(im)
@@ -213,7 +215,17 @@ def run_tif(case):
                     skw = {"scaling": (lo_ - case["scaling"][0] * span, hi_ + case["scaling"][1] * span)}
                     widen = 1.0 + case["scaling"][0] + case["scaling"][1]
                     labels.append("explicit_scaling")
-                if case["how"] == "hp.save":
+                if case["how"].endswith("_unscaled"):
+                    # scaling=None on an image whose values do not exceed 1: the exporter stretches it to the
+                    # full range of the integer format; the reloaded values are the originals within one step of 1/full
+                    v = im.values
+                    im = im.copy(data=(v - v.min()) / max(float(v.max() - v.min()), 1e-30) * 0.9 + 0.05)
+                    fp = det_fingerprint(im)
+                    nb = 8 if "8" in case["how"] else 16
+                    save_image(path, im, scaling=None, depth=nb); bits = 8 if nb == 8 else 15
+                    widen = 1.0 / 0.9
+                    labels.append("unscaled_unit_range")
+                elif case["how"] == "hp.save":
                     hp.save(path, im); bits = 8
                 elif case["how"] == "save_image8":
                     save_image(path, im, depth=8, **skw); bits = 8
